@@ -449,8 +449,9 @@ func snapshot(t *htask, files map[string]string) string {
 			set[l] = c
 		}
 	}
-	// the spokfile is a file of the project too (constant within a history)
-	withSpokfile := map[string]string{"spokfile": "<the spokfile>"}
+	// the spokfile is a file of the project too (constant within a history unless the history edits it:
+	// judgeRun then passes the version along under a hidden key)
+	withSpokfile := map[string]string{"spokfile": "<the spokfile" + files[spokfileVersionKey] + ">"}
 	for p, c := range files {
 		withSpokfile[p] = c
 	}
@@ -472,6 +473,15 @@ func snapshot(t *htask, files map[string]string) string {
 		return noFiles
 	}
 	return mapKey(set)
+}
+
+// spokfileVersionKey is a hidden (never glob-matched) key of the file map that carries the version of the spokfile.
+const spokfileVersionKey = ".spokfile-version"
+
+// spokVer identifies the text of a shape's spokfile.
+func spokVer(s hshape) string {
+	b, _ := json.Marshal(s.Tasks)
+	return fmt.Sprintf(" %x", core.Hash64(string(b)))
 }
 
 // noFiles is the snapshot of a task none of whose dependencies denotes a file ("" = no snapshot at all).
@@ -700,6 +710,8 @@ func judgeRun(s hshape, pre hstate, o hobs, st *hstate, c02 c02mode) hverdict {
 	for k, val := range pre.Files {
 		cur[k] = val
 	}
+	// a glob that matches the spokfile sees which version of it this is (histories may edit it)
+	cur[spokfileVersionKey] = spokVer(s)
 	logged := map[string]bool{}
 	for _, l := range o.Log {
 		logged[l] = true
